@@ -456,7 +456,7 @@ func (r *runner) serverCheck(kind string) bool {
 	ctx := func(cat string) (string, string) {
 		// which property besides C01 a server-state difference speaks to
 		switch kind {
-		case "depart":
+		case "depart", "join":
 			return "C06", map[string]string{"entities": "entity-survived", "components": "attachment-survived", "actions": "attachment-survived", "assets": "attachment-survived", "participants": "ghost-participant"}[cat]
 		case "comp_add", "comp_delete", "comp_update":
 			return "C12", "store-state"
@@ -556,6 +556,12 @@ func (r *runner) serverCheck(kind string) bool {
 		}
 		if parts[0] == "participants" {
 			r.v("C08", "ghost-participant", "%s", parts[1])
+		}
+		if r.lastOut != nil && !r.lastOut.Accepted && kind != "depart" && kind != "" && kind != "block" && kind != "burst" {
+			r.v("C04", "refused-changed-state", "after a refused %s: %s", r.lastOut.Kind, parts[1])
+			if kind == "entity_delete" || kind == "pose" || kind == "asset_add" {
+				r.v("C05", "refused-had-effect", "after a refused %s: %s", r.lastOut.Kind, parts[1])
+			}
 		}
 	}
 	return true
